@@ -440,8 +440,12 @@ func redactPipelineStage(stage interface{}, redactFieldNames bool, keyPath []str
 					continue
 				case Pipeline:
 					if arr, ok := v.([]any); ok {
-						isSelectivelyRedactable := isRedactableFieldPatternInArray(arr)
-						newMap.Set(redactedKey, redactArrayValues(arr, redactFieldNames, inSearchStage, isSelectivelyRedactable, newKeyPath))
+						// a sub-pipeline: every element is a stage
+						newPipeline := make([]any, len(arr))
+						for i, stage := range arr {
+							newPipeline[i] = redactPipelineStage(stage, redactFieldNames, []string{}, isInSearchStage(stage))
+						}
+						newMap.Set(redactedKey, newPipeline)
 					} else if vMap, ok := v.(*orderedmap.OrderedMap[string, any]); ok {
 						// Redact each key in the ordered map with redactPipelineStage:
 						newPipelineMap := orderedmap.NewOrderedMap[string, any]()
@@ -540,8 +544,12 @@ func redactPipelineStage(stage interface{}, redactFieldNames bool, keyPath []str
 									continue
 								case Pipeline:
 									if arr, ok := subV.([]any); ok {
-										isSelectivelyRedactable := isRedactableFieldPatternInArray(arr)
-										newSubMap.Set(subK, redactArrayValues(arr, redactFieldNames, inSearchStage, isSelectivelyRedactable, newKeyPath))
+										// a sub-pipeline: every element is a stage
+										newPipeline := make([]any, len(arr))
+										for i, stage := range arr {
+											newPipeline[i] = redactPipelineStage(stage, redactFieldNames, []string{}, isInSearchStage(stage))
+										}
+										newSubMap.Set(subK, newPipeline)
 									} else {
 										newSubMap.Set(subK, subV)
 									}
